@@ -37,7 +37,7 @@ Wrap(S) == {TList(t) : t \in S} \cup {TDict(TCls("str"), t) : t \in S} \cup {TTu
 
 \* pools for large unions (RewriteLargeUnion): all-classes, all-tuples, mixed
 ClassPool == {TCls("int"), TCls("str"), TNone, TCls(CA), TCls(CB), TCls(CC), TCls(CD), TCls(CE), TCls("bool")}
-SubclassPool == {TCls(CA), TCls(CB), TCls(CC), TCls(CD)} \cup
+SubclassPool == {TCls(CA), TCls(CB), TCls(CC), TCls(CD), TCls("mtfx.shapes.B2"), TCls("mtfx.shapes.B3")} \cup
                 {TCls("mtfx.shapes.X1"), TCls("mtfx.shapes.X2"), TCls("mtfx.shapes.X3"),
                  TCls("mtfx.shapes.Y1"), TCls("mtfx.shapes.Y2"), TCls("mtfx.shapes.Y3")}
 TuplePool == {TTuple(<<>>), TTuple(<<TCls("int")>>), TTuple(<<TCls("int"), TCls("int")>>),
@@ -46,6 +46,8 @@ TuplePool == {TTuple(<<>>), TTuple(<<TCls("int")>>), TTuple(<<TCls("int"), TCls(
 MixedPool == {TCls("int"), TCls(CB), TNone, TList(TCls("int")), TList(TAny), TDict(TCls("str"), TCls("int")),
               TDict(TCls("str"), TCls("str")), TTuple(<<>>), TTuple(<<TCls("int")>>), TCallable, TIterator(TAny),
               TTypeOf(TCls(CA)), TSet(TAny), TSet(TCls("str"))}
+\* three-level single inheritance: A > B > {B2, B3}, A > C
+DeepPool == {TCls(CA), TCls(CB), TCls(CC), TCls("mtfx.shapes.B2"), TCls("mtfx.shapes.B3"), TCls(CE)}
 BigUnions(P, lo, hi) == UNION {KUnions(P, n) : n \in lo..hi}
 
 CtxUser == {TCls("zutil.A"), TCls("zutil.zutil"), TCls("zutil.Outer.Inner"), TCls("zpkg.zutil.B"), TCls("zpkg.zutil.A"),
